@@ -286,17 +286,30 @@ def run_check(prop, tier: str, seed: int, jobs: int) -> int:
     capped = False
     with cf.ProcessPoolExecutor(max_workers=jobs, mp_context=ctx) as pool:
         futs = {}
+        # chunks are submitted round-robin over the batches (the pool runs them in submission order), so that a
+        # wall-clock cap trims every batch proportionally instead of dropping the later ones
+        plans = []
         for bt in batches:
+            chunks = []
             i = 0
             first = True
             while i < bt.runs:
                 j = min(bt.runs, i + (min(bt.chunk, 16) if first else bt.chunk))
-                f = pool.submit(_worker_chunk, prop.__name__, bt.name, seed, tier, i, j, first)
-                futs[f] = (bt, i, j)
+                chunks.append((i, j, first))
                 first = False
                 i = j
+            plans.append((bt, chunks))
             total["per_batch"][bt.name] = {"executor": bt.executor, "runs": 0, "planned": bt.runs,
                                            "faulty": bt.faulty}
+        depth = max((len(c) for _, c in plans), default=0)
+        for lvl in range(depth):
+            for bt, chunks in plans:
+                # spread shorter batches evenly over the whole submission sequence
+                lo = (lvl * len(chunks)) // depth
+                hi = ((lvl + 1) * len(chunks)) // depth
+                for (i, j, first) in chunks[lo:hi]:
+                    f = pool.submit(_worker_chunk, prop.__name__, bt.name, seed, tier, i, j, first)
+                    futs[f] = (bt, i, j)
         pending = set(futs)
         while pending:
             remaining = wall_cap - (time.time() - t0)
